@@ -191,6 +191,21 @@ def _gen_own(rng, tier):
                     pk[j] = rng.randrange(256)
                 out.append(Case("af.hist %s [ [ %d %d ] ]" % (hx(bytes(pk)), code, v), kind="af-set-same-value-noncanonical",
                                 theorem="C04_pcr_layout / C03 step_refines"))
+    # a PCR / OPCR set, then the packet's own adaptation field copied onto itself (p.SetAdaptationField(af of p): receiver and
+    # argument are the same memory; seeded C04-u1), and the same on a packet that does not carry the sync byte yet (a zero
+    # value, or an option function run by packet.Create before 0x47 is written; seeded C04-u2: a sync-byte check in valid())
+    for i, v in enumerate(vals[:: (5 if tier == "quick" else 1)]):
+        for sync in (0x47, 0x00):
+            pk = bytearray(188); pk[0] = sync; pk[1] = rng.randrange(0x20); pk[2] = rng.randrange(256)
+            pk[3] = 0x30 | rng.randrange(16); pk[4] = rng.choice((20, 30, 183)); pk[5] = 0
+            for j in range(6, 5 + pk[4]):
+                pk[j] = 0xFF
+            for j in range(5 + pk[4], 188):
+                pk[j] = rng.randrange(256)
+            v2 = vals[(i * 7 + 3) % len(vals)]
+            ops = "[ 3 1 ] [ 8 %d ] [ 4 1 ] [ 9 %d ] [ 14 0 ] [ 8 %d ]" % (v, v2, v2)
+            out.append(Case("af.hist %s [ %s ]" % (hx(bytes(pk)), ops), kind="af-set-selfcopy" + ("" if sync == 0x47 else "-nosync"),
+                            theorem="C03_self_copy_identity / C03 step_refines"))
     crosscheck_spec(out)
     return out
 
